@@ -81,6 +81,12 @@ func WorkerMain(check Check, args []string) int {
 		return 3
 	}
 	debug.SetMaxStack(256 << 20)
+	if os.Getenv("VERIF_WORKER_PROCS") == "" {
+		runtime.GOMAXPROCS(1)
+	}
+	if os.Getenv("GOGC") == "" {
+		debug.SetGCPercent(50)
+	}
 	tier := args[0]
 	seed, _ := strconv.ParseInt(args[1], 10, 64)
 	workload := args[2]
@@ -208,7 +214,13 @@ func Run(check Check, o *Options) int {
 	t0 := time.Now()
 	id := check.ID()
 	if o.Workers <= 0 {
-		o.Workers = envInt("VERIF_WORKERS", runtime.NumCPU())
+		// measured in this sandbox: allocation-heavy Go processes stop scaling
+		// beyond ~4-6 in parallel (memory bandwidth), so that is the default
+		n := runtime.NumCPU()
+		if n > 5 {
+			n = 5
+		}
+		o.Workers = envInt("VERIF_WORKERS", n)
 	}
 	plan := check.Plan(o.Tier, o.Seed)
 	total := NewResult()
@@ -242,7 +254,7 @@ func Run(check Check, o *Options) int {
 				jobs = append(jobs, job{w: w, from: 0, to: w.N})
 				continue
 			}
-			chunks := int64(o.Workers * 3)
+			chunks := int64(o.Workers * 2)
 			size := (w.N + chunks - 1) / chunks
 			if size < 1 {
 				size = 1
